@@ -124,6 +124,13 @@ pub fn run(seed: u64, tier: &str, filter: &str, count: Option<u64>, out: &mut dy
                             }
                         }
                     }
+                    if case % 4 == 1 {
+                        // directed: a NEGATIVE configured maximum (used by absolute value) far below a large operand of
+                        // either sign - the item must follow the configured maximum, not the operand
+                        st.configuration.max_points_in_random_expressions = -(1 + r.below(30) as i32);
+                        let big = 1200 + r.below(800) as i32;
+                        st.int_stack.push(if r.chance(1, 2) { big } else { -big });
+                    }
                 }
             }
             if name.starts_with("LIST.NEIGHBOR") && name.ends_with("VALS") && r.chance(3, 4) {
@@ -411,6 +418,43 @@ pub fn run_listops(seed: u64, tier: &str, out: &mut dyn FnMut(String)) {
             }
             if r.chance(1, 12) {
                 st.int_stack.flush();
+            }
+            if *name == "LIST.SET" && case % 6 == 5 {
+                // directed: the addressed record PRINTS like the new record but differs from it (a float beyond the
+                // printed decimals, a name spelled like a boolean): the replacement must still happen
+                let k = 1 + r.below(4) as usize;
+                let ids: Vec<i32> = (0..k).map(|_| *r.pick(&[1, 5, 11, 5])).collect();
+                let mut items = vec![];
+                for &sid in ids.iter().rev() {
+                    // pushed in reverse so that load_items pops them in id order
+                    match sid {
+                        1 => {
+                            let b = r.chance(1, 2);
+                            st.bool_stack.push(b);
+                            items.push(Item::bool(b));
+                        }
+                        5 => {
+                            let f = (r.range(-5000, 5000) as f32) / 8.0;
+                            st.float_stack.push(f);
+                            items.push(Item::float(f));
+                        }
+                        _ => {
+                            let n = crate::gen::gen_name(&mut r);
+                            st.name_stack.push(n.clone());
+                            items.push(Item::name(n));
+                        }
+                    }
+                }
+                items.reverse();
+                let old = crate::gen::print_alike(&mut r, &Item::list(items));
+                st.code_stack.flush();
+                if r.chance(1, 2) {
+                    st.code_stack.push(Item::int(gen_int(&mut r)));
+                }
+                st.code_stack.push(old);
+                // position 0 is the top of CODE; a negative position is clamped to it
+                st.int_vector_stack.push(IntVector::new(ids));
+                st.int_stack.push(if r.chance(1, 2) { 0 } else { -2 });
             }
             out(observe_exec(&mut iset, name, st));
         }
